@@ -135,17 +135,17 @@ const (
 
 // Status codes.
 const (
-	StOK          = 0x00
-	StKeyNotFound = 0x01
-	StKeyExists   = 0x02
-	StNotMyVB     = 0x07
-	StRollback    = 0x23
-	StNoAccess    = 0x24
-	StBusy        = 0x85
-	StTmpFail     = 0x86
-	StInternal    = 0x84
-	StUnknownCmd  = 0x81
-	StUnknownColl = 0x88
+	StOK                 = 0x00
+	StKeyNotFound        = 0x01
+	StKeyExists          = 0x02
+	StNotMyVB            = 0x07
+	StRollback           = 0x23
+	StNoAccess           = 0x24
+	StBusy               = 0x85
+	StTmpFail            = 0x86
+	StInternal           = 0x84
+	StUnknownCmd         = 0x81
+	StUnknownColl        = 0x88
 	StSubdocPathNotFound = 0xc0
 	StSubdocMultiFail    = 0xcc
 )
